@@ -4,6 +4,7 @@ import Model.KNSpec
 import Proofs.KNStats
 import Proofs.KNAdjust
 import Proofs.KNCorpus2
+import Proofs.KNCorpus3
 /-!
 # C05 — lmplz computes interpolated modified Kneser-Ney estimates
 
@@ -154,6 +155,46 @@ theorem stats_eq_corpus (cfg : Cfg) (corpus : List (List Word)) (h2 : 2 ≤ cfg.
     statsOf (adjustStream cfg (countFull cfg.order corpus)).adds.reverse i =
       countsOfCounts (Spec.ents cfg (countFull cfg.order corpus) (i + 1)) :=
   KV.KN.Norm.stats_eq_corpus cfg corpus h2 hw hk hfix i hi
+
+open KV.KN.Norm in
+/-- the **true count** the specification (and, by `adjust_stream_eq`, the stream) uses is the
+number of occurrences in the sentences delimited by one `<s>` and `</s>` -/
+theorem trueCount_textbook (N : Nat) (corpus : List (List Word)) (h2 : 2 ≤ N) (g : Gram) (h1 : 1 ≤ g.length)
+    (hn : g.length ≤ N) (hv : Spec.validAt g.length g = true) (hb : g ≠ [bos]) :
+    Spec.trueCount (countFull N corpus) g = (corpus.flatMap fun s => windows g.length (padded1 s)).count g :=
+  KV.KN.Norm.trueCount_padded1 N corpus h2 g h1 hn hv hb
+
+open KV.KN.Norm in
+/-- the **adjusted count**: the true count for the highest order and for n-grams that start
+with `<s>`, else `N₁₊(•g)` = the number of distinct (n+1)-grams of the corpus that extend `g`
+on the left -/
+theorem adjCount_textbook (N : Nat) (corpus : List (List Word)) (h2 : 2 ≤ N) (hw : ∀ s ∈ corpus, ∀ w ∈ s, 3 ≤ w)
+    (g : Gram) (h1 : 1 ≤ g.length) (hn : g.length ≤ N) (hv : Spec.validAt g.length g = true) (hb : g ≠ [bos]) :
+    Spec.adjCount N (countFull N corpus) g =
+      if g.length = N ∨ g.getLast? = some bos then (corpus.flatMap fun s => windows g.length (padded1 s)).count g
+      else (((corpus.flatMap fun s => windows (g.length + 1) (padded1 s)).eraseDups).filter
+              fun h => h.take g.length == g).length :=
+  KV.KN.Norm.adjCount_textbook N corpus h2 hw g h1 hn hv hb
+
+open KV.KN.Norm in
+/-- **written_set** (last clause of C05): an n-gram is written iff it is an n-gram of the
+delimited sentences (or `<unk>`/`<s>`) and is not pruned; and it is pruned iff its true count
+is at or below the threshold of its order or it contains an excluded word (specials exempt). -/
+theorem written_set (cfg : Cfg) (pv : Bool) (fallback : Option Disc) (corpus : List (List Word)) (m : Model)
+    (hm : Spec.estimate cfg pv fallback corpus = .ok m) (h2 : 2 ≤ cfg.order) (hne : corpus ≠ [])
+    (hw : ∀ s ∈ corpus, ∀ w ∈ s, 3 ≤ w) (hthr : ∀ i, i < cfg.order - 1 → cfg.thr i ≤ cfg.thr (i + 1)) (g : Gram) :
+    (Query.lookup m.orders g).isSome = true ↔
+      1 ≤ g.length ∧ g.length ≤ cfg.order ∧
+      ((g.length = 1 ∧ (g = [unk] ∨ g = [bos])) ∨ ((∃ s ∈ corpus, g ∈ windows g.length (padded1 s)) ∧ g ≠ [bos])) ∧
+      Spec.pruned cfg (countFull cfg.order corpus) g = false :=
+  KV.KN.Norm.written_set_corpus cfg pv fallback corpus m hm h2 hne hw hthr g
+
+/-- what "pruned" means -/
+theorem pruned_eq_false_iff (cfg : Cfg) (full : Spec.Table) (g : Gram) :
+    Spec.pruned cfg full g = false ↔
+      (g = [unk] ∨ g = [bos] ∨ g = [eos]) ∨
+      (cfg.thr (g.length - 1) < Spec.trueCount full g ∧ ∀ w ∈ g, cfg.excl w = false) :=
+  KV.KN.Norm.pruned_eq_false_iff cfg full g
 
 /-- the tree never count-prunes the special unigrams in the lower-order paths -/
 theorem keep_specials_tree : KV.Gen.C05.keepSpecials = true := by decide
